@@ -188,6 +188,8 @@ def gen_to_json(rng):
     return sc
 
 TO_JSON_FIXED = [
+    dict(groups=2, courses=2, students=[[0, [0, 1]], [0, [0]]], preload=[], mods=[['new_s', 1, []]], probe=[['s', 2], ['g', 1]], include=['G.students'], schema='none'),
+    dict(groups=1, courses=1, students=[], preload=[['g', 0], ['k', 0]], mods=[['new_s', None, []], ['new_s', 0, [0]]], probe=[['s', 0], ['s', 1], ['k', 0]], include=['K.students', 'S.group'], schema='full'),
     dict(groups=2, courses=2, students=[[0, [0, 1]], [0, [0]]], preload=[], mods=[], probe=[['s', 0]], include=[], schema='none'),
     dict(groups=2, courses=2, students=[[0, [0, 1]], [0, [0]]], preload=[], mods=[], probe=[['g', 0]], include=['G.students', 'S.courses', 'K.students'], schema='full'),
     dict(groups=2, courses=2, students=[[0, [0, 1]], [0, [0]]], preload=[], mods=[], probe=[['s', 1], ['g', 1]], include=['S.group'], schema='hash'),
@@ -379,7 +381,7 @@ def correspondence(ctx):
     # (6) Database.to_json: sections, and which objects the "objects" section holds, against the worklist model
     for sc in TO_JSON_FIXED + [gen_to_json(rng) for _ in range(ctx.scale(80, 800))]:
         r = I.db_to_json_case(sc)
-        if 'error' in r or r['pending']: continue           # pending inserts: see the finding; the search covers them
+        if 'error' in r: continue                           # (reported by the search)
         n = len(r['universe'])
         succc = '(fun o => match o with %s | _ => [] end)' % ' '.join('| %d%%nat => [%s]' % (o, '; '.join('%d%%nat' % x for x in r['succ'][o])) for o in range(n))
         rootsc = '[' + '; '.join('%d%%nat' % x for x in r['roots']) + ']'
@@ -389,6 +391,22 @@ def correspondence(ctx):
         add('db_to_json', '(let d := to_json_objects %d%%nat %s %s in match fst d with [] => true | _ => false end && %s) && sections_eqb (to_json_sections %s %s) [%s]'
             % (n + 1, succc, rootsc, conj, 'false' if r['mode'] == 'none' else 'true', 'true' if r['mode'] == 'hash' else 'false', '; '.join(secs[k] for k in order)),
             {'scenario': sc}, {'present': r['present'], 'sections': order})
+
+    # (7) the permission filter of Database.to_json: courses are not viewable; refused or shipped, against to_json_checked
+    for sc in TO_JSON_FIXED + [gen_to_json(rng) for _ in range(ctx.scale(60, 600))]:
+        r = I.db_to_json_perm_case(dict(sc, mods=[]))
+        if r is None: continue
+        n = len(r['universe'])
+        succc = '(fun o => match o with %s | _ => [] end)' % ' '.join('| %d%%nat => [%s]' % (o, '; '.join('%d%%nat' % x for x in r['succ'][o])) for o in range(n))
+        rootsc = '[' + '; '.join('%d%%nat' % x for x in r['roots']) + ']'
+        viewc = '(fun o => match o with %s | _ => false end)' % ' '.join('| %d%%nat => true' % o for o in r['viewable']) if r['viewable'] else '(fun _ => false)'
+        if r['raised']: e = 'match to_json_checked %d%%nat %s %s %s with Err c => Nat.eqb c 5 | Ok _ => false end' % (n + 1, succc, rootsc, viewc)
+        else:
+            conj = ' && '.join('Bool.eqb (mem %d%%nat l) %s' % (o, 'true' if o in r['shipped'] else 'false') for o in range(n))
+            e = 'match to_json_checked %d%%nat %s %s %s with Ok l => %s | Err _ => false end' % (n + 1, succc, rootsc, viewc, conj)
+        add('db_to_json_can_view', e, {'scenario': sc}, {'raised': r['raised'], 'shipped': r['shipped']}, nt=r['raised'] or len(r['shipped']) > 1)
+        if not r['raised'] and any(o not in r['viewable'] for o in r['shipped']):
+            disagreements.append({'what': 'Database.to_json shipped an object the current user may not view', 'input': sc, 'impl': r['shipped']})
 
     bad = run_bools(ctx, exprs)
     for i in bad[:20]:
@@ -470,8 +488,19 @@ def search(ctx, deep):
         evals += 1
         nontriv.add(json.dumps(sc, sort_keys=True))
         for cls, detail in I.check_db_to_json(sc):
-            key = 'database-to_json-new-object-pk-null' if cls == 'db.to_json:new-object-pk-null' else 'unlisted:' + cls
+            key = 'unlisted:' + cls
             f = Failure(key, '%s: %s' % (cls, json.dumps(detail, default=str)[:300]), {'to_json_scenario': sc, 'class': cls})
+            per_key[f.key] = per_key.get(f.key, 0) + 1
+            if per_key[f.key] == 1: failures.append(f)
+    for sc in TO_JSON_FIXED + [gen_to_json(ctx.rng) for _ in range(1000 if deep else 100)]:
+        r = I.db_to_json_perm_case(dict(sc, mods=[]))
+        if r is None: continue
+        evals += 1
+        bad_ship = [o for o in r['shipped'] if o not in r['viewable']]
+        must_refuse = any(o not in r['viewable'] for o in r['roots'])
+        if bad_ship or (must_refuse and not r['raised']):
+            f = Failure('unlisted:db.to_json:shipped-unviewable-object', 'Database.to_json shipped objects %r of %r which the current user may not view (courses are not viewable)'
+                        % ([r['universe'][o] for o in bad_ship], sc['probe']), {'perm_scenario': dict(sc, mods=[])})
             per_key[f.key] = per_key.get(f.key, 0) + 1
             if per_key[f.key] == 1: failures.append(f)
     pend = list(PENDING_FIXED) + [gen_pending(ctx.rng) for _ in range(3000 if deep else 250)]
@@ -494,9 +523,16 @@ def replay(ctx, data):
         for cls, detail in I.check_pickle_sets():
             return Failure('unlisted:' + cls + ':' + detail.get('kind', ''), '%s: %s' % (cls, json.dumps(detail, default=str)[:300]), data)
         return None
+    if 'perm_scenario' in data:
+        r = I.db_to_json_perm_case(data['perm_scenario'])
+        if r is None: return None
+        bad_ship = [o for o in r['shipped'] if o not in r['viewable']]
+        if bad_ship or (any(o not in r['viewable'] for o in r['roots']) and not r['raised']):
+            return Failure('unlisted:db.to_json:shipped-unviewable-object', 'Database.to_json shipped objects %r which the current user may not view' % ([r['universe'][o] for o in bad_ship],), data)
+        return None
     if 'to_json_scenario' in data:
         for cls, detail in I.check_db_to_json(data['to_json_scenario']):
-            key = 'database-to_json-new-object-pk-null' if cls == 'db.to_json:new-object-pk-null' else 'unlisted:' + cls
+            key = 'unlisted:' + cls
             return Failure(key, '%s: %s' % (cls, json.dumps(detail, default=str)[:300]), data)
         return None
     if 'pending_scenario' in data:
@@ -523,6 +559,6 @@ LEVEL_TEXT = ('Machine-checked proof (Coq 8.16.1) that the composite-key encodin
               'keep items and order, collection wrappers get their items back. The complement of the first (given object also related) is a recorded finding with '
               'witnesses. to_dict/to_json VALUES against the current session state are checked by differential search on SQLite, not proved.')
 LEVEL_NOTE = ('Trusted: Coq kernel + vm_compute; the translator and source scans; str() injectivity per key column; the hand-written traversal / flush / pickling models (tied by vm_compute '
-              'correspondence with real runs, not derived from source); the correspondence harness. Database.to_json: sections and the closure of its objects section are modelled and proved, its values (and the permission filter, lazy/inherited attributes) are tested only.')
+              'correspondence with real runs, not derived from source); the correspondence harness. Database.to_json: sections and the closure of its objects section are modelled and proved, the permission filter as: whatever is shipped passed can_view, else PermissionError (can_view itself is C34); its values and lazy/inherited attributes are tested only; from_json is not covered.')
 TECHNIQUE = 'Coq proof of injectivity via an explicit decoder over a function regenerated from source by py2coq; vm_compute correspondence on adversarial keys and Bag traversals; shadow-state differential search'
 DESIGN_REF = 'DESIGN.md section 5, C31'
